@@ -146,7 +146,8 @@ theorem shouldProxyPost_spec (parts : List String) (h : parts ≠ []) :
   | a :: r, _ =>
     have e4 : ((r.length : Int) + 1 = 4) ↔ (r.length = 3) := by omega
     have e3 : ((r.length : Int) + 1 = 3) ↔ (r.length = 2) := by omega
-    simp [Gen.TrC19.shouldProxyPost, goIndex?, e4, e3]
+    by_cases h1 : a = "ddns" <;> by_cases h2 : a = "linkip" <;> by_cases h3 : r.length = 3 <;>
+      by_cases h4 : r.length = 2 <;> simp_all [Gen.TrC19.shouldProxyPost, goIndex?]
 
 theorem shouldProxyPost_nil : Gen.TrC19.shouldProxyPost [] = none := by decide
 
